@@ -104,7 +104,10 @@ package graphql
 //@   opt callback.resolveFn=maypanic
 //@   at[C20] call resolveFn: assert arg0.Source == source
 //@   at[C20] call resolveFn: assert arg0.Context == eCtx.Context
-//@   at[C20] call resolveFn: assert arg0.Info.FieldName == fp.fieldName && arg0.Info.Path == path && arg0.Info.ParentType == parentType && arg0.Info.ReturnType == fp.returnType
+//@   at[C20] call resolveFn: assert arg0.Info.FieldName == fp.fieldName
+//@   at[C20] call resolveFn: assert arg0.Info.Path == path
+//@   at[C20] call resolveFn: assert arg0.Info.ParentType == parentType
+//@   at[C20] call resolveFn: assert arg0.Info.ReturnType == fp.returnType
 //@   at[C20] call resolveFn: assert arg0.Info.RootValue == eCtx.Root && arg0.Info.Operation == eCtx.Operation && arg0.Info.VariableValues == eCtx.VariableValues && arg0.Info.FieldASTs == fp.fieldASTs
 //@   at[C20,C06] call resolveFn: assert fresh(arg0.Args) || fp.args.hasVariables
 //@   ensures[C04] resolveFnError != nil ==> result == nil
